@@ -109,6 +109,42 @@ CHECKS.update({
                 design='4.19'),
 })
 
+CHECKS.update({
+    'C02': dict(level='proof', technique='abstract interpretation of the validators over an exact byte-string shape domain + transition-table extraction of the core parser from MIR (product exploration against the specification table) + exact byte-set analysis of the split predicate',
+                text='Proof, over all byte strings, of the clauses that compose the statement: the split predicate is exactly {-,_}; each subtag validator accepts exactly its production, stores the specified '
+                     'case form and returns the specified error; the transition table of the core parser extracted from MIR (exact token shape on every path, every loop state) equals table A.1: class -> slot '
+                     '-> next state, first subtag not a language => InvalidLanguage, leftover subtag => InvalidSubtag, other classes end the identifier; productions tried in sequence are pairwise disjoint; '
+                     'variants end sorted, duplicate-free, None when empty; from_bytes/FromStr return the core result and error kind unchanged.',
+                note='Composition "tokens = split(input)" is slice::split\'s contract (trusted). Trusted: rustc MIR, factgen, std/tinystr summaries, spec tables written from UTS #35.',
+                design='4.2'),
+    'C03': dict(level='other', technique='transition-table extraction of the five token-stream parsers from MIR (path-sensitive abstract interpretation with exact token shapes) compared with specification tables by product exploration; validator abstract interpretation; byte-set analysis',
+                text='Decides, for every byte string class at once: all 13 validators exact and normalising; ExtensionType::from_byte over all 256 bytes; split predicates exactly {-,_}; and for each of the '
+                     'five token-stream functions that its per-state transition table equals specification tables A.1-A.5: every subtag class is consumed into the right slot through the right normalisation, '
+                     'ends the part, or is rejected as prescribed; no consumed subtag is dropped (multi-character singleton), no parsed value overwritten (repeated singleton, second tlang), a pending '
+                     'key is flushed exactly when required, singletons end every sub-parser state. The composition of the tables into the whole-locale grammar is a paper argument (DESIGN App. A).',
+                note='Structural: whole-input behaviour is not executed. "either" zones of the property are "either" rows. Duplicate keyword/tfield keys are outside the property.',
+                design='4.3'),
+    'C04': dict(level='other', technique='emission-automaton extraction from the MIR of every Display impl and language-equivalence check against the canonical grammar (NFA determinisation); guards by path facts; validator abstract interpretation; typestate; item privacy facts',
+                text='Decides: the emission language of each of the 10 value-type Display impls equals the canonical grammar (order, literals, optional parts iff present, every element, nothing when empty); '
+                     'what is printed verbatim is canonical text (validators exact + normalising, "true" never stored, every setter inserts the validated argument, text-carrying fields private); ordered '
+                     'collections are sorted/duplicate-free at every exit of every mutator and constructor; maps are BTreeMaps; canonicalize = parse then to_string.',
+                note='"canonicalize(s) is never longer than s" is a numeric fact about run-time strings and is not decided. Values built with the unchecked constructors are outside the quantifier.',
+                design='4.4'),
+    'C05': dict(level='other', technique='specification-level simulation of every printer-grammar sentence through the parser tables (shape algebra) on top of the EMIT (emission automata) and PARSE (transition tables) equivalences; validator idempotence on canonical shapes; typestate',
+                text='Decides the structural preconditions of the round trip: printers equal their grammars and parsers equal their tables (shared with C04/C03); every sentence of the printer grammars (all '
+                     'optional parts, lists unrolled 0..2, each extension followed by each extension the printer can emit after it, nested tlang) is re-read by the tables into the slot each subtag was printed '
+                     'from; every validator is the identity on canonical text; "und" reads back as the empty language; "true" is never stored; one representation of emptiness and order.',
+                note='Equality after the trip on concrete values is not executed; it follows from the above plus std collection semantics. ExtensionsMap::other stays empty (quantifier).',
+                design='4.5'),
+    'C09': dict(level='other', technique='validator abstract interpretation (case-closed exact productions), exact byte-set analysis of split predicates and of from_byte, typestate of constructors, parser transition tables, item facts (BTreeMap fields)',
+                text='Decides the invariances structurally: every validator accepts a case-closed production and stores a fixed case transform; literal comparisons are made on folded text; from_byte maps u/U, '
+                     't/T, x/X alike; one separator set {-,_} in all three split predicates; variants/attributes are sorted+deduplicated before they are stored, keywords/tfields live in BTreeMaps; the parser '
+                     'tables have a single state per part kind (no dependence on which key/variant came first), -u-/-t- are dispatched from one state into separate slots and a repeated one is rejected in '
+                     'either order.',
+                note='The metamorphic relation itself is not executed on concrete pairs. Inputs with duplicate keyword/tfield keys are outside the property.',
+                design='4.9'),
+})
+
 NOT_YET = {}
 
 
